@@ -346,6 +346,8 @@ class World:
         if s["mesh"]["kind"] == "rectangular":
             return aa.Mesh2DRectangular.overlay_grid(shape_native=tuple(s["mesh"]["shape"]), grid=grid)
         pts = self.own(s["id"], "mesh_points", floats(s["mesh"]["points"], (-1, 2)))
+        if s["mesh"]["kind"] == "voronoi":
+            return aa.Mesh2DVoronoi(values=pts)
         return aa.Mesh2DDelaunay(values=pts)
 
     def _b_mapper_shared(self, s):
